@@ -122,6 +122,7 @@ class Gen:
         self.loop_depth = 0
         self.labels = []
         self.f = features or {}
+        self.last_kind = None
 
     # ---------- bookkeeping ----------
     def begin(self):
@@ -316,8 +317,23 @@ class Gen:
         texts = []
         for _ in range(n):
             e.newline()
+            i0, s1 = len(self.truth), self.begin()
+            self.last_kind = None
             t = self.stmt(depth + 1)
             texts.append(t)
+            if self.last_kind == 'call' and not self.f.get('stmts') and self.rng.random() < 0.25:
+                # the same statement once more (copy and paste): every nested occurrence is an occurrence of its own
+                import copy
+                again = self.truth[i0:]
+                e.newline()
+                s2 = self.begin()
+                e.w(t)
+                for tr in again:
+                    u = copy.deepcopy(tr)
+                    u['start'] += s2[0] - s1[0]; u['end'] += s2[0] - s1[0]; u['line'] += s2[1] - s1[1]
+                    self.truth.append(u)
+                texts.append(t)
+            self.last_kind = None
         e.indent -= 1
         e.newline()
         e.w('}')
@@ -397,6 +413,7 @@ class Gen:
             return self.local_var()
         if k == 'call':
             self.call(1); e.tight(); e.w(';')
+            self.last_kind = 'call'
             return self.src_between(s[0], e.n)
         if k == 'return':
             e.w('return')
